@@ -582,6 +582,21 @@ def random_histories(rep, work, hs, tier):
 
 
 def judge(rep, work, f, label):
+    """shards of <= 50 traces per TLC run (trace files with observations are large)"""
+    n = len(f['traces'])
+    if n <= 50:
+        return judge_one(rep, work, f, label)
+    out = {}
+    for k in range(0, n, 50):
+        part = dict(f)
+        part['traces'] = f['traces'][k:k + 50]
+        v = judge_one(rep, work, part, '%s-%d' % (label, k // 50))
+        for i, rej in v.items():
+            out[k + i] = rej
+    return out
+
+
+def judge_one(rep, work, f, label):
     path = work.path('gs-%s.json' % label)
     with open(path, 'w') as fh:
         json.dump(f['traces'], fh)
